@@ -52,9 +52,19 @@ def run(chk):
     try:
         w_ = SymWorld()
         it_ = Interp(step_limit=10_000)
-        got = canon(Function(rdup.node, ModuleEnv(chk.repo, rdup.module, it_, {"pd": sym_root(w_, "pd")}), it_)(sym_root(w_, "x")))
+        got = canon(Function(rdup.node, ModuleEnv(chk.repo, rdup.module, it_, {"pd": sym_root(w_, "pd"), "np": sym_root(w_, "np"), "numpy": sym_root(w_, "np")}), it_)(sym_root(w_, "x")))
     except Unsupported as e:
         raise AnalysisError(f"{rdup.key}: uses an operation outside the modelled subset: {e}")
+    for neg in ("np.logical_not(", "np.invert(", "np.bitwise_not("):     # element-wise negation of a boolean array, spelled with NumPy
+        while neg in got:
+            i_ = got.index(neg)
+            depth, j_ = 0, i_ + len(neg) - 1
+            for j_ in range(i_ + len(neg) - 1, len(got)):
+                depth += got[j_] == "("
+                depth -= got[j_] == ")"
+                if depth == 0:
+                    break
+            got = got[:i_] + "invert(" + got[i_ + len(neg):j_] + ")" + got[j_ + 1:]
     r1.require(got in ("x[invert(x.index.duplicated(keep='first'))]", "x.loc[invert(x.index.duplicated(keep='first'))]", "x[invert(x.index.duplicated())]", "x.loc[invert(x.index.duplicated())]"),
                f"{rdup.key}|keep-first", rdup.where(), f"remove_duplicates must keep the first *row* of each duplicated timestamp (x[~x.index.duplicated(keep='first')]); it computes `{got[:120]}`")
 
